@@ -98,6 +98,14 @@ def main():
         cases.append(('xrun', 'accept', 5, argv, x_exit(5), True))
     cases.append(('hexasm', 'accept', 0, ['missing.src'], b'', False))
     cases.append(('xcmp', 'accept', 0, ['missing.src', '-o', 'out.bin'], b'', False))
+    if ck.replay_arg:
+        import json
+        r = json.load(open(ck.replay_arg))
+        # a recorded table violation: the tool, its argv and the source; the class is re-derived from the model's work
+        # parameter as recorded (accepted iff the recorded model line starts with status 0 or the status is the program's)
+        src = r.get('source', '').encode('latin1')
+        cls = 'accept' if any(src == s2 for c2, s2, e2 in ASM_SOURCES + X_SOURCES if c2 == 'accept') or src in (asm_exit(7), x_exit(1), x_exit(5), tiny_bin(9)) else 'reject'
+        cases = [(r['tool'], cls, 0, r['argv'], src, True)]
     # model expectations
     lines = []
     for tool, cls, ev, argv, src, exists in cases:
